@@ -159,8 +159,8 @@ def Expr.inlineCleanB : Expr → Bool
   | .list v ml _ _ _ => (ml || allFlatB v) && allInlineCleanB v
   | .set v ml _ _ _ _ => (ml || allFlatB v) && allInlineCleanB v
   | .binding _ v _ _ _ => v.inlineCleanB
-  | .paren .. => false     -- parentheses / calls: outside the spacing theorem so far (`File.basic`)
-  | .app .. => false
+  | .paren v lg _ _ _ _ _ => ((Layout.fromGap lg).onNewline || v.before.isEmpty) && v.inlineCleanB
+  | .app n x g _ _ _ => ((Layout.fromGap g).onNewline || x.before.isEmpty) && n.inlineCleanB && x.inlineCleanB
 def allInlineCleanB : List Expr → Bool
   | [] => true
   | e :: rest => e.inlineCleanB && allInlineCleanB rest
@@ -174,14 +174,17 @@ def allBeforeEmpty : List Expr → Bool
 
 mutual
 /-- THE EXCLUSION of the spacing theorem, in its final form: in every container written on one
-    line, no item has leading trivia (i.e. no comment stands in front of an item) -/
+    line, no item has leading trivia (i.e. no comment stands in front of an item); the value of a
+    parenthesis that follows `(` on the same line has no leading trivia (no comment between `(` and
+    it: `cex_comment_after_open_paren`); the argument of a call that follows the function on the
+    same line has no leading trivia (no comment touching the function: `cex_comment_touching_function`) -/
 def Expr.beforeFlatB : Expr → Bool
   | .leaf .. => true
   | .list v ml _ _ _ => (ml || allBeforeEmpty v) && allBeforeFlatB v
   | .set v ml _ _ _ _ => (ml || allBeforeEmpty v) && allBeforeFlatB v
   | .binding _ v _ _ _ => v.beforeFlatB
-  | .paren .. => false
-  | .app .. => false
+  | .paren v lg _ _ _ _ _ => ((Layout.fromGap lg).onNewline || v.before.isEmpty) && v.beforeFlatB
+  | .app n x g _ _ _ => ((Layout.fromGap g).onNewline || x.before.isEmpty) && n.beforeFlatB && x.beforeFlatB
 def allBeforeFlatB : List Expr → Bool
   | [] => true
   | e :: rest => e.beforeFlatB && allBeforeFlatB rest
@@ -207,26 +210,22 @@ end
 
 def Src.beforeFlatG (s : Src) : Bool := allBeforeFlatG s.exprs
 
-/-! ### the container-only part of the fragment
-
-The theorems of C18 (spacing normal form) and C06 (fixed point of comment-free files) are proved for
-the files without parentheses and function calls; C01 and C03 cover the whole fragment. -/
-
 mutual
-def Cst.basic : Cst → Bool
-  | .leaf _ _ => true
-  | .list its _ => its.basic
-  | .set _ _ its _ => its.basic
-  | .paren .. => false
-  | .app .. => false
-def Items.basic : Items → Bool
-  | .nil => true
-  | .cmt _ _ rest => rest.basic
-  | .elem _ c rest => c.basic && rest.basic
-  | .bind _ _ _ _ _ _ v _ _ rest => v.basic && rest.basic
+/-- `beforeFlatB` without its clause for calls (the clause for parentheses kept):
+    `C18.cex_comment_touching_function` shows that the clause for calls is needed. -/
+def Expr.beforeFlatP : Expr → Bool
+  | .leaf .. => true
+  | .list v ml _ _ _ => (ml || allBeforeEmpty v) && allBeforeFlatP v
+  | .set v ml _ _ _ _ => (ml || allBeforeEmpty v) && allBeforeFlatP v
+  | .binding _ v _ _ _ => v.beforeFlatP
+  | .paren v lg _ _ _ _ _ => ((Layout.fromGap lg).onNewline || v.before.isEmpty) && v.beforeFlatP
+  | .app n x _ _ _ _ => n.beforeFlatP && x.beforeFlatP
+def allBeforeFlatP : List Expr → Bool
+  | [] => true
+  | e :: rest => e.beforeFlatP && allBeforeFlatP rest
 end
 
-def File.basic (f : File) : Bool := f.items.basic
+def Src.beforeFlatP (s : Src) : Bool := allBeforeFlatP s.exprs
 
 /-! ### comment-free files: the tree of the output (`C06.frag_fixed_point_comment_free`) -/
 
@@ -235,8 +234,8 @@ def Cst.cf : Cst → Bool
   | .leaf _ _ => true
   | .list its _ => its.cf
   | .set _ _ its _ => its.cf
-  | .paren .. => false     -- the normaliser `Cst.norm` covers containers only so far (`File.basic`)
-  | .app .. => false
+  | .paren its _ => its.cf
+  | .app f cs _ a => f.cf && cs.isEmpty && a.cf
 def Items.cf : Items → Bool
   | .nil => true
   | .cmt _ _ _ => false
@@ -266,8 +265,17 @@ def Cst.norm : Cst → Nat → Cst
     else if containsNL ((if r then rg else []) ++ its.flatten ++ cg) then
       .set r (if r then [' '] else []) (its.normML (i + 2)) (vgap cg i)
     else .set r (if r then [' '] else []) (its.normFlat (i + 2)) [' ']
-  | .paren its cg, _ => .paren its cg     -- not covered by the normaliser (`File.basic`)
-  | .app f cs g a, _ => .app f cs g a
+  -- `(` value `)`: the value stays on the line of `(` or goes on its own line at the indentation read
+  -- from the gap; `)` stays on the value's last line or goes on its own line at the current indentation
+  | .paren (.elem g c .nil) cg, i =>
+    .paren (.elem (if containsNL g then vgap g (indentFromGap g) else [])
+        (c.norm (if containsNL g then indentFromGap g else i)) .nil)
+      (if containsNL cg then vgap cg i else [])
+  | .paren its cg, _ => .paren its cg     -- (not a comment-free parenthesis)
+  -- function, one space or a line break (the argument then at the indentation read from the gap), argument
+  | .app f cs g a, i =>
+    .app (f.norm i) cs (if containsNL g then vgap g (indentFromGap g) else [' '])
+      (a.norm (if containsNL g then indentFromGap g else i))
 /-- items of a container that spans several lines, one per line at indentation `j` -/
 def Items.normML : Items → Nat → Items
   | .nil, _ => .nil
